@@ -815,6 +815,11 @@ impl<'a> LiveEvents<'a> {
                     // Found the start of the next document
                     self.reset_document_state();
                     self.produced_any_in_doc = false;
+                    // Skipped events bypass the budget; let it see the document boundary so
+                    // that per-document counters start from zero again.
+                    if let Some(budget) = self.budget.as_mut() {
+                        let _ = budget.observe(&raw);
+                    }
                     return true;
                 }
                 Event::DocumentEnd => {
